@@ -105,6 +105,12 @@ Proof. exact is_terminal_spec. Qed.
 Theorem C20_signals : handled_signals = [Some SIGINT; Some SIGTERM; Some SIGHUP].
 Proof. exact (proj2 signals_literal). Qed.
 
+(* the model's Serve waits for every task's Run itself and announces readiness only from the goroutine that has waited
+   for every task's ready event; nobody else announces it (extracted: gen/ExtServer.v) *)
+Theorem C20_serve_shape :
+  serve_runs_tasks_directly = true /\ ready_after_all_tasks = true /\ main_announces_ready = 0%Z.
+Proof. repeat split; reflexivity. Qed.
+
 (* the overall READY notification is preceded by every task's ready event *)
 Theorem C20_ready : forall n pre post st,
   reach n (pre ++ LNotifyReady :: post) st -> forall j, j < n -> In (LReady j) pre.
@@ -186,3 +192,4 @@ Print Assumptions C20_task_can_return.
 Print Assumptions C20_serve_bounded.
 Print Assumptions C20_serve_progress.
 Print Assumptions C20_http_attempts.
+Print Assumptions C20_serve_shape.
